@@ -10,7 +10,7 @@
 //! trusted: R15 (deep slice): can_forward_htlc_to_outgoing_channel: the unit extracts its last two statements (minimum-amount test and the call of htlc_satisfies_config, which is checked against that function's proved contract) verbatim; the privacy / liveness pre-checks before them (all early Err returns) are dropped and not claimed; NextPacketDetails skeleton
 //! trusted: R15 (deep slice): claim_funds_internal: the expression computing total_fee_earned_msat inside the PaymentForwarded closure, verbatim
 //! trusted: R15 (deep slice): do_chain_event sweeps pending_intercepted_htlcs with a retain closure under a mutex; the unit extracts the closure's keep/fail-back test verbatim as a function of (htlc, height); the pushed failure and the log are dropped; PendingAddHTLCInfo/PendingHTLCInfo skeletons {outgoing_cltv_value}
-//! trusted: R15 (deep slice): do_best_block_updated times out AddHTLC entries of the holding cell in a retain closure; the unit extracts the limit and the keep/drop test verbatim as a function of (cltv_expiry, height)
+//! trusted: R15 (deep slice): do_best_block_updated times out AddHTLC entries of the holding cell in a retain closure; the unit extracts the limit and the keep/drop test verbatim as a function of (cltv_expiry, height), and the second component of each of its three Ok result tuples (what is handed back to be failed upstream) as three one-expression functions
 //! assume: intercepted forwards have outgoing_cltv_value >= HTLC_FAIL_BACK_BUFFER (they passed check_incoming_htlc_cltv); otherwise the u32 subtraction in the sweep underflows
 //! assume: cur_height <= 2^31-1 (block heights)
 //! assume: Logger callbacks do not panic (R3)
@@ -322,6 +322,35 @@ pub struct PendingAddHTLCInfo { pub forward_info: PendingHTLCInfo }
     *cltv_expiry <= unforwarded_htlc_cltv_limit
 //@with
     *cltv_expiry < unforwarded_htlc_cltv_limit
+//@end
+// ---- ... and every successful exit of do_best_block_updated hands those timed-out HTLCs back to be failed upstream (three deep R15 slices: the second component of each Ok tuple) ----
+pub struct TimedOutHTLC { pub id: u64 }
+//@extract lightning/src/ln/channel.rs :: impl FundedChannel :: fn do_best_block_updated
+//@slice R15
+    return Ok((Some(FundingConfirmedMessage::Establishment(channel_ready)), $second, announcement_sigs));
+//@with
+    fn handed_back_with_channel_ready(timed_out_htlcs: Vec<TimedOutHTLC>) -> Vec<TimedOutHTLC> { $second }
+//@ret r
+//@ensures P C08 htlcs-timed-out-of-the-holding-cell-are-handed-back-when-channel_ready-is-generated-in-the-same-block
+    r@ == timed_out_htlcs@,
+//@end
+//@extract lightning/src/ln/channel.rs :: impl FundedChannel :: fn do_best_block_updated
+//@slice R15
+    return Ok((Some(FundingConfirmedMessage::Splice($args:any)), $second, announcement_sigs));
+//@with
+    fn handed_back_with_splice_locked(timed_out_htlcs: Vec<TimedOutHTLC>) -> Vec<TimedOutHTLC> { $second }
+//@ret r
+//@ensures P C08 htlcs-timed-out-of-the-holding-cell-are-handed-back-when-splice_locked-is-generated-in-the-same-block
+    r@ == timed_out_htlcs@,
+//@end
+//@extract lightning/src/ln/channel.rs :: impl FundedChannel :: fn do_best_block_updated
+//@slice R15
+    Ok((None, $second, announcement_sigs)) }
+//@with
+    fn handed_back_otherwise(timed_out_htlcs: Vec<TimedOutHTLC>) -> Vec<TimedOutHTLC> { $second }
+//@ret r
+//@ensures P C08 htlcs-timed-out-of-the-holding-cell-are-handed-back-on-the-ordinary-exit
+    r@ == timed_out_htlcs@,
 //@end
 // (P, C08) with the heights above, the forwarding race of lemma_forward_race is the one the monitor really runs:
 // downstream silent => on chain at outgoing + LATENCY; upstream claimable (preimage known) => on chain from incoming - CLTV_CLAIM_BUFFER
